@@ -77,6 +77,18 @@ CHECKS = {
     text='Re-layouts (white space, no space next to marks, comments, abbreviations, bracketed calls) must compile to the identical listing; braces round single values to identical behaviour. Identifiers: the full set of names of length <= 2 plus every case variant of every reserved-looking word is enumerated in variable / macro / parameter / routine / loop-variable roles; longer names and strings are sampled.',
     design='DESIGN.md section 3, C16',
     note='Strings ending in a backslash are a recorded open finding (undocumented escape) and excluded from generation while it is open; CR/VT/FF/NEL/LS/PS are treated as line breaks and not generated inside strings.'),
+ 'C15': dict(
+    technique='Hypothesis-generated zone / matrix-addressing programs over generated device sizes, compared with the reference interpreter\'s model matrix with zero colour tolerance (exact Fraction conversion)',
+    category='exploration',
+    text='Generated search over stage-rectangle sequences (0..8 per block, either order, omitted parts, literal / variable / expression / loop-index bounds incl. float indices), inline and block forms, default fill, all unit modes, on matrix sizes 1x1..16x4/8x8 and strips of 1..82 zones; every tile message is compared cell by cell.',
+    design='DESIGN.md section 3, C15',
+    note='Trusts the reference interpreter\'s matrix model and units_exact; indices outside the device are not generated (undocumented).'),
+ 'C18': dict(
+    technique='round-trip property: capture (ScriptSnapshot and WebApp.snapshot) -> text -> production compile+run -> device state, over Hypothesis-generated populations, raw states and hostile light names',
+    category='exploration',
+    text='Round trip through text generation, lexing, compiling, unit handling and execution for generated populations of plain / multizone / matrix lights in arbitrary raw states; final device state must equal the captured state exactly.',
+    design='DESIGN.md section 3, C18',
+    note='State is read from the simulated lifxlan devices; names contain no double quote or line break.'),
 }
 PENDING_REASON = 'check not built yet in this session; planned as described in DESIGN.md (property-based / fuzzing check, same runner)'
 
